@@ -39,7 +39,7 @@ type Result struct {
 	Worker      int               `json:"worker"`
 	Runs        int64             `json:"runs"`
 	Steps       int64             `json:"steps"`
-	SimNs       int64             `json:"sim_ns"`
+	SimNs       float64           `json:"sim_ns"` // float: days-long clock jumps times many runs overflow int64
 	WallS       float64           `json:"wall_s"`
 	Nontrivial  int64             `json:"nontrivial"`
 	TraceHashes []string          `json:"trace_hashes"` // distinct hashes of non-trivial runs
